@@ -801,6 +801,88 @@ func extractGenPropId(f *file, o *out) {
 		fmt.Sprintf("def genPropId (id prop : String) : String := %s", cat(ret.Results[0])))
 }
 
+// ---------------------------------------------------------------------------------------------------
+// 3. where the states read the clock that decides expiry, relative to taking the state lock
+
+// isClockRead: `NowSecs()` or `time.Now()...Unix()` (any selector chain rooted at a call of time.Now)
+func isClockRead(e ast.Expr) bool {
+	found := false
+	ast.Inspect(e, func(n ast.Node) bool {
+		c, ok := n.(*ast.CallExpr)
+		if !ok {
+			return true
+		}
+		switch fn := c.Fun.(type) {
+		case *ast.Ident:
+			if fn.Name == "NowSecs" {
+				found = true
+			}
+		case *ast.SelectorExpr:
+			if x, ok := fn.X.(*ast.Ident); ok && x.Name == "time" && fn.Sel.Name == "Now" {
+				found = true
+			}
+		}
+		return true
+	})
+	return found
+}
+
+// extractClockReads lists, for every method of the state implementations that assigns a clock reading to a variable
+// later passed to expire/checkExpiration (by name: `now`), whether that assignment comes after the method's own
+// slock call in source order ("afterLock"), before it ("beforeLock"), or whether the method takes no lock itself
+// ("callee": its callers hold the lock).
+func extractClockReads(repo string, o *out) {
+	rows := []string{}
+	for _, impl := range [][2]string{{"indexed", "state_indexed.go"}, {"linear", "state_linear.go"}} {
+		f := load(filepath.Join(repo, "core", impl[1]))
+		keys := []string{}
+		for k := range f.funcs {
+			keys = append(keys, k)
+		}
+		sort.Strings(keys)
+		for _, k := range keys {
+			fd := f.funcs[k]
+			if fd.Recv == nil {
+				continue
+			}
+			var clockPos, lockPos token.Pos
+			ast.Inspect(fd.Body, func(n ast.Node) bool {
+				switch x := n.(type) {
+				case *ast.AssignStmt:
+					if len(x.Lhs) == 1 && len(x.Rhs) == 1 {
+						if id, ok := x.Lhs[0].(*ast.Ident); ok && id.Name == "now" && isClockRead(x.Rhs[0]) && clockPos == 0 {
+							clockPos = x.Pos()
+						}
+					}
+				case *ast.CallExpr:
+					if se, ok := x.Fun.(*ast.SelectorExpr); ok && se.Sel.Name == "slock" && lockPos == 0 {
+						lockPos = x.Pos()
+					}
+				}
+				return true
+			})
+			if clockPos == 0 {
+				continue
+			}
+			where := "callee"
+			if lockPos != 0 {
+				where = "afterLock"
+				if clockPos < lockPos {
+					where = "beforeLock"
+				}
+			}
+			name := k[strings.Index(k, ".")+1:]
+			rows = append(rows, fmt.Sprintf("  (%s, %s, %s)", leanString(impl[0]), leanString(name), leanString(where)))
+			fmt.Fprintf(&o.log, "clock read for expiry in %s.%s (%s): %s\n", impl[0], name, f.fset.Position(clockPos), where)
+		}
+	}
+	if len(rows) < 3 {
+		die("state_indexed.go/state_linear.go: expected at least three methods that read the clock into `now` for the expiry test, found %d", len(rows))
+	}
+	o.def("methods of IndexedState / LinearState that read the clock into `now` for the expiry test, and where that reading sits relative to the method's own slock call (source order)",
+		"def clockReads : List (String × String × String) := [\n"+strings.Join(rows, ",\n")+"]")
+}
+
 func main() {
 	repo := flag.String("repo", "/repo", "rulio source tree")
 	outPath := flag.String("out", "", "Lean file to (re)write; empty = print only")
@@ -862,6 +944,7 @@ func main() {
 	extractOneShot(ev, o)
 	extractIdProperty(st, o)
 	extractGenPropId(st, o)
+	extractClockReads(*repo, o)
 
 	fmt.Fprintf(&o.lean, "end Gen\n")
 	fmt.Fprintf(&o.log, "state-touching methods: %s\n", strings.Join(sm, " "))
